@@ -17,11 +17,24 @@ theorem dueBeforeEvent_denseSegs (fwd : Bool) (xold te : K) (ip : Interp K) (tev
     unfold dueBeforeEvent
     cases fwd <;> simp only [Bool.false_eq_true, if_false, if_true] <;> split_ifs <;> simp [ih]
 
+theorem popBeyond_denseSegs (fwd : Bool) (te : K) : ∀ (f : Nat) (s : St K), (popBeyond fwd te f s).denseSegs = s.denseSegs := by
+  intro f
+  induction f with
+  | zero => intro s; rfl
+  | succ f ih =>
+    intro s
+    unfold popBeyond
+    split
+    · dsimp only
+      split_ifs <;> first | rfl | rw [ih]
+    · rfl
+
 theorem terminalSamples_denseSegs (fwd : Bool) (xold x te : K) (ip : Option (Interp K)) (s : St K) :
     (terminalSamples fwd xold x te ip s).denseSegs = s.denseSegs := by
   unfold terminalSamples
   split
-  · exact dueBeforeEvent_denseSegs ..
+  · rw [dueBeforeEvent_denseSegs, popBeyond_denseSegs]
+  · exact popBeyond_denseSegs ..
   · split
     · dsimp only; split_ifs <;> rfl
     · rfl
